@@ -40,6 +40,8 @@ func (o opSpec) String() string {
 		return fmt.Sprintf("Query(%s)", p)
 	case "walk":
 		return "Walk"
+	case "walksorted":
+		return "WalkSorted"
 	case "hupd":
 		return fmt.Sprintf("h.Update(%s)", o.val)
 	case "hval":
@@ -56,6 +58,13 @@ var (
 
 // addDeep is refused while a/b is a leaf (error path) and turns a/b into a branch otherwise.
 var addDeep = opSpec{"add", abc, "v1"}
+
+// walkSorted is WalkSorted from the root (what CacheClient.Leaves and the CLI display call).
+var walkSorted = opSpec{"walksorted", nil, ""}
+
+// extras join the alphabet as single-operation programs and in two-operation
+// programs next to every writing operation (thorough: next to every operation).
+var extras = []opSpec{addDeep, walkSorted}
 
 var alphaQuick = []opSpec{
 	{"add", ab, "v1"}, {"add", ac, "v1"}, {"add", ab, "v2"},
@@ -144,17 +153,15 @@ func (harness) Configs(tier string) []xplore.Config {
 	alpha := alphaFull
 	// 2 threads x (1..2 ops), 3 threads x 1 op: pre-emption bound 3
 	ps := programs(alpha, 2)
-	ps = append(ps, []opSpec{addDeep})
-	if tier == "thorough" {
+	for _, x := range extras {
+		ps = append(ps, []opSpec{x})
 		for _, o := range alpha {
-			ps = append(ps, []opSpec{addDeep, o}, []opSpec{o, addDeep})
-		}
-		ps = append(ps, []opSpec{addDeep, addDeep})
-	} else {
-		for _, o := range alpha {
-			if !readOnly([]opSpec{o}) {
-				ps = append(ps, []opSpec{addDeep, o}, []opSpec{o, addDeep})
+			if tier == "thorough" || !readOnly([]opSpec{o}) {
+				ps = append(ps, []opSpec{x, o}, []opSpec{o, x})
 			}
+		}
+		if tier == "thorough" {
+			ps = append(ps, []opSpec{x, x})
 		}
 	}
 	for _, in := range inits {
@@ -164,7 +171,10 @@ func (harness) Configs(tier string) []xplore.Config {
 			}
 		}
 	}
-	p1 := append(programs(alpha, 1), []opSpec{addDeep})
+	p1 := programs(alpha, 1)
+	for _, x := range extras {
+		p1 = append(p1, []opSpec{x})
+	}
 	for _, in := range inits {
 		for i := 0; i < len(p1); i++ {
 			for j := i; j < len(p1); j++ {
@@ -367,6 +377,7 @@ type rec struct {
 	val      string            // hval / get value
 	reported map[string]string // query / walk: path -> value
 	dup      bool              // query reported a path twice
+	unsorted bool              // WalkSorted visited paths out of lexicographic order
 	qid      int
 }
 
@@ -476,7 +487,7 @@ func lops(rs []rec) []hutil.LOp {
 				}
 				return []hutil.State{m}
 			}})
-		case "query", "walk":
+		case "query", "walk", "walksorted":
 			out = append(out, hutil.LOp{Inv: r.inv, Ret: r.inv, Thread: r.thread, Name: fmt.Sprintf("%s:start", r.spec), Step: func(s hutil.State) []hutil.State {
 				n := s.(*mst).clone()
 				a := &qacc{inter: map[string]bool{}, union: map[string]map[string]bool{}}
@@ -561,7 +572,7 @@ func (harness) Run(cfg xplore.Config, ch vrt.Chooser, trace bool) (xplore.Outcom
 						h.Update(o.val)
 					case "hval":
 						r.val = fmt.Sprint(h.Value())
-					case "query", "walk":
+					case "query", "walk", "walksorted":
 						r.reported = map[string]string{}
 						f := func(p []string, _ *ctree.Leaf, v interface{}) error {
 							k := strings.Join(p, "/")
@@ -571,9 +582,20 @@ func (harness) Run(cfg xplore.Config, ch vrt.Chooser, trace bool) (xplore.Outcom
 							r.reported[k] = fmt.Sprint(v)
 							return nil
 						}
-						if o.kind == "walk" {
+						switch o.kind {
+						case "walk":
 							t.Walk(f)
-						} else {
+						case "walksorted":
+							last := ""
+							t.WalkSorted(func(p []string, l *ctree.Leaf, v interface{}) error {
+								if k := strings.Join(p, "/"); k < last {
+									r.unsorted = true
+								} else {
+									last = k
+								}
+								return f(p, l, v)
+							})
+						default:
 							t.Query(o.path, f)
 						}
 					}
@@ -604,6 +626,9 @@ func (harness) Run(cfg xplore.Config, ch vrt.Chooser, trace bool) (xplore.Outcom
 		for _, r := range all {
 			if r.dup {
 				out.Violations = append(out.Violations, xplore.Violation{Class: "query-duplicate", Msg: fmt.Sprintf("%s reported a leaf twice", r.spec)})
+			}
+			if r.unsorted {
+				out.Violations = append(out.Violations, xplore.Violation{Class: "walksorted-order", Msg: "WalkSorted visited leaves out of lexicographic order"})
 			}
 		}
 		ops := lops(all)
